@@ -61,6 +61,12 @@ def templates(tier):
         out.append(('compound' + op, T('x %s y ; x' % op), {'x': i64, 'y': i64}, {}))
         out.append(('compound-eq' + op, T('w = x ; x %s y ; x == ( w %s y )' % (op, op[:-1])), {'x': sp(['i64'], (0,)), 'y': sp(['i64'], (0,))}, {}))
     out.append(('compound/=', T('x /= y ; x'), {'x': sp(['num', 'bool'], (0,)), 'y': sp(['num', 'none'], (0,))}, {}))
+    # the right side rebinds the target: `x op= e` must use the value x had *before* e ran
+    for op in ('+=', '*=', '-='):
+        out.append(('rhs-rebinds-target' + op, T('x %s ( ( x = y ) == q ? z : w ) ; x' % op), {'x': sp(['num'], (0,)), 'y': sp(['num'], (0,)), 'z': sp(['num'], (0,)), 'w': sp(['num'], (0,))}, {}))
+    out.append(('rhs-rebinds-target=', T('x = [ x = y , x ] ; x'), {'x': sp(['num', 'none']), 'y': sp(['num', 'str'])}, {}))
+    out.append(('rhs-rebinds-other', T('x += ( ( v = y ) == q ? v : z ) ; [ x , v ]'), {'x': sp(['num'], (0,)), 'y': sp(['num'], (0,)), 'z': sp(['num'], (0,))}, {}))
+    out.append(('lhs-func-then-rhs', T('f += g ; f'), {}, {'f': sp(['num'], (0,)), 'g': sp(['num'], (0,))}))
     out.append(('func-read', T('x = f ; x'), {}, {'f': sp(['num', 'list'])}))
     out.append(('func-call', T('x = f ( ) + g ; x'), {}, {'f': num, 'g': num}))
     out.append(('last-value', T('y ; z'), {'y': anyp, 'z': sp(['num', 'str'])}, {}))
